@@ -47,7 +47,8 @@ class Gen2:
     """Values are trees: ('p', x) primitive, ('s', [field values | None | True]) struct, ('u', idx, struct) union,
     ('a', [elems]) array/dict (dict elems are ('s',[k,v]) with distinct keys)."""
 
-    def __init__(self, sc, rng, maxdepth=4, big=False, negzero=False):
+    def __init__(self, sc, rng, maxdepth=4, big=False, negzero=False, huge=0):
+        self.huge = huge
         self.I = sc.desc["instances"]
         self.rng = rng
         self.maxdepth = maxdepth
@@ -67,7 +68,9 @@ class Gen2:
         if p == "float64":
             return r.choice(F64 + ([2 ** 63] if self.negzero else []) + [r.below(2 ** 64)])
         if p == "string":
-            if self.big and r.chance(1, 30):
+            if self.huge and r.chance(1, self.huge):
+                n = r.choice(cc.HUGE_LENS)
+            elif self.big and r.chance(1, 30):
                 n = r.choice([253, 254, 255, 256, 300, 70000])
             else:
                 n = r.choice(STR_LENS)
